@@ -4,6 +4,7 @@ package main
 // reports and counts those whose two access stacks are both inside the library.
 
 import (
+	"fmt"
 	"bufio"
 	"context"
 	"io"
@@ -34,8 +35,9 @@ func servePeer(l link, v int, stop *int32) {
 		switch f.Cmd {
 		case 2, 3:
 			l.sendFrame(respFrame(v, f.Cmd, f.Rid, 0, authRespBody("sess", 600000)))
-		default:
-			l.sendFrame(respFrame(v, f.Cmd, f.Rid, 0, f.Body))
+		default: // echo: the body as it came over the wire, with its gzip flag
+			e := &RefFrame{V: v, Type: 2, Cmd: f.Cmd, Rid: f.Rid, Gzip: f.Gzip, Body: f.Body, MLenField: -1, BLenField: -1}
+			l.sendFrame(e.encode())
 		}
 	}
 }
@@ -280,6 +282,49 @@ func (r *Run) c17WsOverflow() {
 	f.close()
 }
 
+// c17GzipBodies: concurrent callers whose bodies are above the gzip threshold (the pooled compressors are shared by
+// all callers and by the reader side).
+func (r *Run) c17GzipBodies() {
+	f, a, err := c17Dial("tcp", nil, client.Keepalive(time.Hour), client.KeepaliveTimeout(2*time.Hour))
+	if err != nil {
+		return
+	}
+	rounds := 25
+	if r.thorough() {
+		rounds = 120
+	}
+	var wg sync.WaitGroup
+	var bad int32
+	for i := 0; i < 8; i++ {
+		wg.Add(1)
+		go func(i int) {
+			defer wg.Done()
+			defer func() { recover() }()
+			g := NewRNG(uint64(1000 + i))
+			for k := 0; k < rounds; k++ {
+				b := make([]byte, 2500+g.Intn(600))
+				for j := range b {
+					b[j] = "abcdefghijklmnopqrstuvwxyz0123456789"[g.Intn(36)]
+				}
+				res, err := f.tc.cli.Do(context.Background(), &client.Request{Cmd: uint32(90 + i), Body: &control.Close{Reason: string(b)}}, client.RequestTimeout(500*time.Millisecond))
+				if err == nil && res != nil {
+					var back control.Close
+					if res.Unmarshal(&back) != nil || back.Reason != string(b) {
+						atomic.AddInt32(&bad, 1)
+					}
+				}
+			}
+		}(i)
+	}
+	wg.Wait()
+	if n := atomic.LoadInt32(&bad); n > 0 {
+		r.violate(Violation{What: fmt.Sprintf("%d echoed gzip-sized bodies came back altered under concurrent callers", n), Case: "tcp, 8 callers, bodies of 2.5-3 KB (above the gzip threshold), echo peer"})
+	}
+	r.st.Evaluations++
+	a.halt()
+	f.close()
+}
+
 func itoa(n int) string {
 	if n == 0 {
 		return "0"
@@ -306,6 +351,7 @@ func runC17(r *Run) {
 	}
 	r.c17SplitFrames()
 	r.c17WsOverflow()
+	r.c17GzipBodies()
 	suites := map[string]func(*Run){"C05": runC05, "C14": runC14, "C15": runC15}
 	order := []string{"C05", "C14", "C15"}
 	if r.thorough() {
